@@ -19,11 +19,11 @@ fn spec(t: Tier) -> Spec {
         level: "exploration",
         rule: format!(
             "sandbox of sparse files whose sizes are {{0,1,2,3}} and k*u-1, k*u, k*u+1 for u in {{2,512,2^10,2^20,2^30}}, k<={k}{big}; files with 1..4 hard links; files owned by ids {{0,1,54321,2^31,2^32-2}}; files whose a/m timestamps are k*P-1s, k*P-1ns, k*P, k*P+1ns, k*P+1s old (P in {{60,86400}}, k<={kt}) under an injected clock. For every numeric primary (-size x 7 unit spellings, -links, -inum, -uid, -gid, -atime/-ctime/-mtime, -amin/-cmin/-mmin) the operand list is {{m-1,m,m+1 : m a measured value present in the sandbox}} + {{0, 2^31, 2^63-1, 2^63, 2^64-1}} (+ a zero-padded spelling), and for every (entry, N) the three forms N, +N, -N are evaluated by the real find in one comma-list run; each must equal (measured ==,>,< N) with measured = ceil(size/unit), st_nlink, st_ino, st_uid, st_gid, floor((now-timestamp)/P) computed from lstat() read back from the sandbox; trichotomy and monotonicity in N are also checked directly on the outputs. evaluation = (entry, N, form); non-trivial = |measured-N| <= 1",
-            k = t.pick(2, 4),
-            big = t.pick("", " plus 2^31+-1, 2^32+-1, 5*2^30+1, 2^40+1, 2^62+1"),
+            k = t.pick(3, 4),
+            big = " plus 2^31+-1, 2^32+-1, 5*2^30+1, 2^40+1, 2^62+1",
             kt = t.pick(2, 5)
         ),
-        bound: json!({"units": UNITS.iter().map(|u| u.0).collect::<Vec<_>>(), "size_k_max": t.pick(2, 4), "time_k_max": t.pick(2, 5), "big_N": ["2^31", "2^63-1", "2^63", "2^64-1"]}),
+        bound: json!({"units": UNITS.iter().map(|u| u.0).collect::<Vec<_>>(), "size_k_max": t.pick(3, 4), "time_k_max": t.pick(2, 5), "big_N": ["2^31", "2^63-1", "2^63", "2^64-1"]}),
         assumptions: vec![
             "operands >= 2^64 are outside the check (rejected by the code, which C11 judges)".into(),
             "ages are >= 0 (scope of the statement); tmpfs keeps nanosecond timestamps and sparse sizes".into(),
@@ -100,11 +100,11 @@ fn measured(k: MKind, st: &St, now: SystemTime) -> Option<u64> {
 fn sizes(t: Tier) -> Vec<u64> {
     let mut s: BTreeSet<u64> = [0u64, 1, 2, 3].into_iter().collect();
     for u in [2u64, 512, 1 << 10, 1 << 20, 1 << 30] {
-        for k in 1..=t.pick(2u64, 4) {
+        for k in 1..=t.pick(3u64, 4) {
             s.extend([k * u - 1, k * u, k * u + 1]);
         }
     }
-    if t == Tier::Thorough {
+    {
         s.extend([(1u64 << 31) - 1, 1 << 31, (1 << 31) + 1, (1u64 << 32) - 1, 1 << 32, (1u64 << 32) + 1, 5 * (1u64 << 30) + 1, (1u64 << 40) + 1, (1u64 << 62) + 1]);
     }
     s.into_iter().collect()
